@@ -22,9 +22,11 @@ func runC09(opt *Options) int {
 			{Name: "K10.variablesorder", Pkg: "config", Harness: "VerifHarness_C09_VariablesOrder", Unwind: 24, E2E: "c09", Stub: []string{"(*github.com/jmattheis/goverter/pkgload.PackageLoader).GetOneRaw", "github.com/jmattheis/goverter/config.formatLineError", "github.com/jmattheis/goverter/method.Parse", "(*go/types.Var).String"}},
 			{Name: "K8.outputfile", Pkg: "config", Harness: "VerifHarness_C15_OutputFile", Unwind: 64, Stub: []string{"github.com/jmattheis/goverter/method.Parse"}, E2E: "c09"},
 			{Name: "K7.filescan", Pkg: "comments", Harness: "VerifHarness_C19_ParseDocsFiles", Unwind: 64, E2E: "c09"},
+			{Name: "K10.parsedocsfaults", Pkg: "comments", Harness: "VerifHarness_C09_ParseDocsFaults", Unwind: 200, E2E: "c09"},
+			{Name: "K8.defaultoutputfile", Pkg: "config", Harness: "VerifHarness_C15_DefaultOutputFile", Unwind: 64, E2E: "c09", SetInts: map[string]int{"VerifC15NameMax": 8}},
 			{Name: "K10.unknownfields", Pkg: "builder", Harness: "VerifHarness_C09_UnknownFields", Unwind: 24, ReplayTries: 12},
 		},
-		Funcs:     []string{"xtype.Enum.SortedMembers", "xtype.UsageFromMap", "xtype.UsageChecker.Used/Unused", "method.AvailableContextDebug", "method.(*Index).Register/GetAll", "generator.(*generator).getGenMethods", "generator.validateMethods", "builder.(*Struct).Assign (tail: configured fields that do not exist)", "builder.(*MethodContext).DefinedFields", "config.parseConverterLine (extend, output:file arms)", "config.parseMethods (variables blocks)", "parse.File"},
+		Funcs:     []string{"xtype.Enum.SortedMembers", "xtype.UsageFromMap", "xtype.UsageChecker.Used/Unused", "method.AvailableContextDebug", "method.(*Index).Register/GetAll", "generator.(*generator).getGenMethods", "generator.validateMethods", "builder.(*Struct).Assign (tail: configured fields that do not exist)", "builder.(*MethodContext).DefinedFields", "config.parseConverterLine (extend, output:file arms)", "config.parseMethods (variables blocks)", "parse.File", "comments.ParseDocs (faulty packages in every loader order)", "config.defaultOutputFile"},
 		E2EAlways: "c09",
 		Bounds:    "maps with 2..3 entries whose keys are symbolic one-byte names (pairwise distinct) or fixed distinct names; the order of every range over a map is a symbolic choice over all permutations; each function runs twice per path and must agree with itself",
 		Assume: []string{
